@@ -125,10 +125,10 @@ def scan_units():
                     attrs[k] = v
             harness = None
             j = i
-            while j < min(len(lines), i + 40):
+            while j < min(len(lines), i + 80):
                 fm = re.match(r"\s*(?:pub(?:\(crate\))?\s+)?fn\s+([A-Za-z0-9_]+)\s*\(", lines[j])
-                if not fm:  # harness generated by a macro: first argument is the harness name
-                    fm = re.match(r"\s*[a-z_0-9]+!\(\s*([a-z0-9_]+__[a-z0-9_]+)\s*,", lines[j])
+                if not fm:  # harness generated by a macro: first argument is the harness name (possibly on the next line)
+                    fm = re.match(r"\s*[a-z_0-9]+!\(\s*([a-z0-9_]+__[a-z0-9_]+)\s*,", lines[j] + " " + (lines[j + 1] if j + 1 < len(lines) else ""))
                 if fm:
                     harness = fm.group(1)
                     break
